@@ -319,7 +319,14 @@ def potable_case(model_name, target, nr, nrho, history=()):
     return EC.vcs_from(path, O, E)
 
   def replay(v, w, path, structural):
-    return replay_eam_potable(text, target, nr, nrho, fs, adp, w)
+    r = replay_eam_potable(text, target, nr, nrho, fs, adp, w)
+    if r[0] and "HarnessError" in r[1]:
+      # module-level state of the code under test still holds objects of the symbolic run (which the unchanged code never
+      # keeps): the same thing is re-run with plain numbers in a fresh process - another model of the same kind first
+      from checks import common
+      c, d, rec = common.in_fresh_process("checks.eam_potable", "replay_after_other", text, target, nr, nrho, fs, adp)
+      return bool(c), d, rec
+    return r
 
   try:
     explore_and_check(res, fn, build, replay=replay, negative=lambda p: build(p, wrong=True),
@@ -414,6 +421,27 @@ def replay_eam_api(target, model, nr, nrho, w, route="class"):
     if bad:
       return last
   return last
+
+
+def replay_after_other(text, target, nr, nrho, fs, adp):
+  """fresh process: a copy of the model with other numbers is tabulated first, then the model itself is checked"""
+  import re
+  from atsim.potentials.config import Configuration
+  out, body = [], False
+  for line in text.split("\n"):
+    if line.startswith("["):
+      body = not (line.startswith("[Tabulation") or line.startswith("[Species"))
+    if body and not line.startswith("["):
+      line = re.sub(r"(?<![\w.>=])(\d+\.\d+)", lambda m: repr(float(m.group(1)) * 1.5), line)
+    out.append(line)
+  other = "\n".join(out)
+  try:
+    Configuration().read(io.StringIO(other)).write(io.StringIO())
+  except Exception as e:  # noqa
+    return [False, "the model read first could not be tabulated: %s: %s" % (type(e).__name__, e), dict(model=other)]
+  c, d, rec = replay_eam_potable(text, target, nr, nrho, fs, adp, {})
+  rec = dict(rec, read_first=other)
+  return [bool(c), "after a model of the same kind with other numbers was tabulated in this process: " + d, rec]
 
 
 def replay_eam_potable(text, target, nr, nrho, fs, adp, w):
